@@ -77,6 +77,7 @@ class World:
         self.hw = {}
         for i in range(nmod):
             ms = modgen.gen_module(rng, f'mod{i}', base=rng.choice(['Module', 'Module', 'Readable', 'Writable']))
+            ms['nopoll'] = rng.random() < 0.25
             ms['export'] = True
             if rng.random() < 0.4:
                 # a curve-like parameter: array of numbers with finite element limits (configurable on the array parameter)
